@@ -150,7 +150,7 @@ func semanticEqual(a, b *types.Operation) string {
 func checkC15(c *Ctx) {
 	c.Rule = "ceremonies (key generation + signing, plus a reinitialisation) are driven with an operator that, before every genuine submission, first submits altered variants of the result (other/unknown/retired id, changed type, changed payload byte, request-only, result of another node's operation, result for another round), then the genuine one, then the genuine one again, and sometimes two pending results in reverse order. Every submission is judged on board delta, pool delta, attribution and ed25519 signature of what was posted, and byte-exact state equality when refused. File round trip: every operation and result goes through the real writers/readers (JSON file written by Machine.ProcessOperation, parsed back; the same operation processed twice into the same result file) and is compared field by field. distinct = distinct (operation type, submission kind)"
 	c.Assumptions = []string{"MemState", "ResultMsgs are not checkable by the node (they come from the machine); the property only demands that exactly those are posted"}
-	worlds := c.Pick(12, 400)
+	worlds := c.Pick(48, 400)
 	Parallel(worlds, 12, func(wi int) { runC15(c, wi, c.Seed*109+uint64(wi)) })
 	c15RoundTrip(c)
 	c15ConcurrentDuplicates(c)
